@@ -28,7 +28,7 @@ import re
 from common import LEAN, hx, setup_repo_import
 
 ID = "C02"
-GENS = ["c02_registry", "c02_ctor"]
+GENS = ["c02_registry", "c02_ctor", "c02_fields"]
 PROOF = "Gallia.Proofs.C02"
 DRIVER = "c02"
 ORACLE = True
@@ -643,6 +643,9 @@ def run(ctx):
                      {"pdu": hx(sb), "found_as": hx(b)}, impl=siv, model=smv, spec_violated=r[1],
                      site=f"{site}._from_pdu/.pdu")
 
+    # 3b. EVERY attribute of EVERY registered response class against the regenerated field table (`fieldsAt`, Model/UdsRespFields.lean)
+    _fields_check(ctx, rows, inputs, impl, model)
+
     # 4. objects from the public constructors: .pdu, then parsed back
     n_con = ctx.pick(60, 400)
     con = []
@@ -773,6 +776,161 @@ def run(ctx):
     rng.shuffle(pool)
     pool = sorted(pool[: ctx.pick(250, 1500)], key=len)
     _stored_check(ctx, pool)
+
+# ---------------------------------------------------------------------------------------------------------
+# every attribute of every class against the field table
+
+
+def load_field_table():
+    """class -> {leaf: (how, off, width)} re-read from the regenerated file the proofs are checked against"""
+    txt = (LEAN / "Gallia" / "Gen" / "C02Fields.lean").read_text()
+    tab = {}
+    for m in re.finditer(r'^  \("(\w+)", \[(.*)\]\),?$', txt, flags=re.M):
+        tab[m.group(1)] = {a: (h, int(o), int(w)) for a, h, o, w in re.findall(r'\("([^"]+)", "(\w+)", (\d+), (\d+)\)', m.group(2))}
+    if not tab:
+        raise RuntimeError("generated field table is empty")
+    return tab
+
+
+def _flat(name, v, out, table):
+    import enum
+
+    if v is None:
+        out[name] = "none"
+    elif isinstance(v, bool):
+        out[name] = f"!bool:{v}"
+    elif isinstance(v, (int, enum.IntEnum)):
+        out[name] = str(int(v))
+    elif isinstance(v, (bytes, bytearray)):
+        out[name] = hx(bytes(v))
+    elif isinstance(v, (list, tuple)):
+        out[name + "#"] = str(len(v))
+        for i, x in enumerate(v):
+            _flat(f"{name}[{i}]", x, out, table)
+    elif isinstance(v, dict):
+        if name + "{}" in table:
+            try:
+                out[name + "{}"] = ",".join(f"{int(k)}:{int(x)}" for k, x in v.items()) or "-"
+            except (TypeError, ValueError):
+                out[name + "{}"] = "!non-int-entries"
+        else:
+            out[name + "#"] = str(len(v))
+            for i, (k, x) in enumerate(v.items()):
+                _flat(f"{name}.key[{i}]", k, out, table)
+                _flat(f"{name}.val[{i}]", x, out, table)
+    else:
+        out[name] = f"!{type(v).__name__}"
+
+
+def leaves_of(o, table):
+    """all public attribute leaves of a live response object (generic: no per-class knowledge)"""
+    S = _svc()
+    names = sorted(k for k in vars(o) if not k.startswith("_") and k != "trigger_request")
+    if isinstance(o, S.SubFunctionResponse):
+        names.append("sub_function")
+    out = {}
+    for a in names:
+        try:
+            _flat(a, getattr(o, a), out, table)
+        except Exception as e:  # noqa: BLE001
+            out[a] = f"!{type(e).__name__}"
+    return out
+
+
+def _fields_impl(b, tab):
+    S = _svc()
+    try:
+        o = S.UDSResponse.parse_dynamic(b)
+    except Exception:  # noqa: BLE001
+        return None
+    if isinstance(o, S.RawResponse):
+        return None
+    return type(o).__name__, leaves_of(o, tab.get(type(o).__name__, {}))
+
+
+def _fields_classify(tab, iv, mline):
+    """None, or (category, spec_violated, text); iv = (class, leaves) of the live object, mline = driver `fat` output"""
+    if iv is None or not mline.startswith("ok "):
+        return None   # verdict differences are reported by the main comparison
+    icls, il = iv
+    parts = mline.split(" ")
+    ml = dict(x.split("=", 1) for x in parts[2:])
+    fam = FAM_OF.get(icls, icls)
+    if icls not in tab:
+        return (f"fields:{fam}:class-not-in-table", False, f"{icls} is returned by parse_dynamic but has no row in the field table")
+    if parts[1] != icls:
+        return None
+    for leaf in sorted(il):
+        if leaf not in ml:
+            return (f"fields:{fam}:attribute-not-in-table:{leaf}", False, f"{icls} exposes {leaf}={il[leaf]}, which the field table does not know")
+    for leaf in sorted(ml):
+        if leaf not in il:
+            return (f"fields:{fam}:attribute-missing:{leaf}", True, f"{icls} does not expose {leaf}; the ISO position holds {ml[leaf]}")
+        if il[leaf] != ml[leaf]:
+            h, o, w = tab[icls].get(leaf, ("?", 0, 0))
+            return (f"fields:{fam}:{leaf}", True, f"{icls}.{leaf} = {il[leaf]}, but the bytes ISO places there ({h} at offset {o}) hold {ml[leaf]}")
+    return None
+
+
+def _fields_check(ctx, rows, inputs, impl, model):
+    S = _svc()
+    rng = ctx.rng
+    tab = load_field_table()
+    reg = {r[0] for r in rows}
+    if set(tab) != reg:
+        ctx.disagree("fields:table-classes", "the field table and the response registry name different classes",
+                     {"only_table": sorted(set(tab) - reg), "only_registry": sorted(reg - set(tab))}, spec_violated=False, site="gen/c02_fields.py")
+    picked, short3 = [], []
+    for (lab, b, _), iv, mv in zip(inputs, impl, model):
+        if iv.startswith("ok ") and mv.startswith("ok "):
+            (short3 if lab.startswith("short:len3") else picked).append(b)
+    cap = ctx.pick(20000, 400000) * (4 if ctx.widened else 1)
+    if len(short3) > cap:
+        short3 = rng.sample(short3, cap)
+    picked += short3
+    mlines = ctx.lean(["fat " + hx(b) for b in picked])
+    found = {}
+    seen_cls, seen_leaf = set(), set()
+    for b, ml in zip(picked, mlines):
+        ctx.ev()
+        iv = _fields_impl(b, tab)
+        if iv is not None:
+            seen_cls.add(iv[0])
+            seen_leaf.update((iv[0], k) for k in iv[1])
+        r = _fields_classify(tab, iv, ml)
+        if r and (r[0] not in found or len(b) < len(found[r[0]][0])):
+            found[r[0]] = (b, r)
+    ctx.kind(*(["fields-vs-table"] * len(picked)))
+    ctx.traces_validated += len(picked)
+    n_leaf = sum(len(v) for v in tab.values())
+    ctx.notes["field_table"] = {"classes": len(tab), "leaves": n_leaf, "classes_seen": len(seen_cls), "leaves_seen": len(seen_leaf),
+                                "pdus_compared": len(picked)}
+    ctx.exhaustive_parts.append(f"field table: every attribute leaf of every registered response class ({len(tab)} classes, {n_leaf} leaves; "
+                                f"{len(seen_cls)} classes / {len(seen_leaf)} leaves seen on {len(picked)} accepted PDUs)")
+    missing = sorted(reg - seen_cls)
+    if missing:
+        ctx.disagree("fields:class-never-exercised", "no accepted PDU of a registered class was generated", {"classes": missing},
+                     spec_violated=False, site="harness/props/C02.py")
+    for cat, (b, r) in found.items():
+        cur = b
+        for _ in range(64):   # fixed-order minimisation keeping the category: drop from the end, drop inner bytes, lower bytes
+            cands = [cur[:-k] for k in (4, 3, 2, 1) if len(cur) > k]
+            cands += [cur[:i] + cur[i + 1:] for i in range(len(cur) - 1, 0, -1)]
+            cands += [cur[:i] + bytes([v]) + cur[i + 1:] for i in range(1, len(cur)) for v in (0, 1, 0x10, 0x11, cur[i] // 2) if v < cur[i]]
+            cands = list(dict.fromkeys(c for c in cands if c))
+            if not cands:
+                break
+            ms = ctx.lean(["fat " + hx(c) for c in cands])
+            nxt = next((c for c, m in zip(cands, ms) if (_fields_classify(tab, _fields_impl(c, tab), m) or (None,))[0] == cat), None)
+            if nxt is None:
+                break
+            cur = nxt
+        iv = _fields_impl(cur, tab)
+        ml = ctx.lean(["fat " + hx(cur)])[0]
+        rr = _fields_classify(tab, iv, ml) or r
+        ctx.disagree(cat, f"parse_dynamic({hx(cur)}): {rr[2]}", {"pdu": hx(cur), "found_as": hx(b), "fields": True},
+                     impl=("reject" if iv is None else " ".join(["ok", iv[0]] + [f"{k}={v}" for k, v in sorted(iv[1].items())])),
+                     model=ml, spec_violated=rr[1], site=f"{(iv or ('UDSResponse',))[0]}._from_pdu")
 
 
 def _ctor_eval(cls, args, canon):
@@ -988,6 +1146,15 @@ def replay(ctx, case):
     b = bytes.fromhex(c["pdu"]) if c["pdu"] != "-" else b""
     mv = model_batch(ctx, [b])[0][0]
     print("input  :", hx(b))
+    if c.get("fields"):
+        tab = load_field_table()
+        iv = _fields_impl(b, tab)
+        ml = ctx.lean(["fat " + hx(b)])[0]
+        print("impl   :", "reject / raw" if iv is None else " ".join(["ok", iv[0]] + [f"{k}={v}" for k, v in sorted(iv[1].items())]))
+        print("fieldsAt (ISO position slices of the received bytes):", ml)
+        r = _fields_classify(tab, iv, ml)
+        print("verdict:", "agree" if r is None else f"{r[0]} (spec_violated={r[1]}): {r[2]}")
+        return 0 if r is None else 1
     if "class" in c:
         try:
             iv = view_obj(getattr(S, c["class"]).from_pdu(b))
